@@ -1,4 +1,5 @@
 import Driver.HsShared
+import Mtv.Handshake.Conn
 /-
   Line-protocol driver of property C07: the client machine `hsRun` on the operation's draws, public
   key and three reply bodies, with the executable SHA-1 / AES-256 / modular exponentiation plugged in.
@@ -11,6 +12,14 @@ import Driver.HsShared
   goes on using the client object after the exchange was abandoned: a request, a second `CreateConnection`): the
   result line is that of the exchange up to the return of `CreateConnection`; what the real client does afterwards
   (it must write no encrypted message, store nothing) is judged by the oracle of the Go side only.
+    c07.gone <tag> <old>+<new> <window_ms> <k> { <d> <the 12 tokens of a c07.hs after its tag> } x k
+  k clients, one exchange each; after `CreateConnection` has returned the server does <old> with the connection
+  (close | halfclose | reset | stay | atonce: closed in the same breath as the reply the client gives up at) and <new> with later connections (serve | replay | mute | drop | refuse). Each
+  exchange is answered as a `c07.hs`, followed by what the connection machine (`Mtv.Handshake.Conn`, `createConnection` +
+  `connFeed` as repaired) does on the network events of that behaviour: ` after=quiet` when an exchange that ended with
+  an error is followed by NO action, ` after=resumed` when a completed exchange is followed by no action of a key
+  exchange (at most a dial, a warning). <d> (the server key's private exponent, for the conformant server of later
+  connections) and the window are the Go side's business.
 -/
 namespace Driver.C07
 open Mtv Mtv.Handshake Driver Driver.Hs
@@ -30,11 +39,71 @@ def handleHs : List String → String
     | _, _, _, _, _, _, _, _, _ => "bad-op"
   | _ => "bad-op"
 
+/-- the network events of a server behaviour, as the client sees them -/
+def goneEvents (old new : String) (next : Cfg) : Option (List NetEvent) :=
+  if new ∉ ["serve", "replay", "mute", "drop", "refuse"] then none else
+  match old with
+  | "close" | "halfclose" | "atonce" => some [.eof (new != "refuse") next]
+  | "reset" => some [.readError (new != "refuse") next]
+  | "stay" => some []
+  | _ => none
+
+def isHsAction : ConnAction → Bool
+  | .hs _ => true
+  | _ => false
+
+/-- one client of a `c07.gone`: the 12 tokens of its exchange -/
+def handleGoneOne (old new : String) : List String → String
+  | [nonce, nn, b, _ps, pad, n, e, p, q, r1, r2, r3] =>
+    match parseBytes? nonce, parseBytes? nn, parseBytes? b, parseBytes? pad, hexNat? n, e.toNat?,
+          parseBytes? r1, parseBytes? r2, parseBytes? r3 with
+    | some nonce, some nn, some b, some pad, some n, some e, some r1, some r2, some r3 =>
+      if nonce.length ≠ 16 ∨ nn.length ≠ 32 ∨ b.length ≠ 256 ∨ pad.length ≠ 16 then "bad-op" else
+      let hint : Option (Nat × Nat) := match p.toNat?, q.toNat? with
+        | some p, some q => some (p, q)
+        | _, _ => none
+      let c : Cfg := { R := Mtv.Gen.registry, P := prims hint, key := ⟨n, e⟩, d := ⟨nonce, nn, b, pad⟩ }
+      match goneEvents old new c with
+      | none => "bad-op"
+      | some evs =>
+        let (st, acts) := hsRun c [r1, r2, r3]
+        let start := createConnection true c [r1, r2, r3]
+        let fin := connFeed true start evs
+        let extra := fin.2.drop start.2.length
+        let after :=
+          match st.result with
+          | some (.ok _) => if extra.any isHsAction then s!"acts:{extra.length}" else "resumed"
+          | _ => if extra.isEmpty then "quiet" else s!"acts:{extra.length}"
+        resultLine st acts ++ " after=" ++ after
+    | _, _, _, _, _, _, _, _, _ => "bad-op"
+  | _ => "bad-op"
+
 def chunks (n : Nat) (xs : List String) : Nat → List (List String)
   | 0 => []
   | fuel + 1 => if xs.isEmpty then [] else xs.take n :: chunks n (xs.drop n) fuel
 
+def handleGone : List String → String
+  | "c07.gone" :: _tag :: mode :: w :: k :: rest =>
+    match mode.splitOn "+", w.toNat?, k.toNat? with
+    | [old, new], some wn, some kn =>
+      -- (numbers in canonical decimal only, as the Go side demands)
+      if toString wn != w ∨ toString kn != k then "bad-op" else
+      let w := wn
+      let k := kn
+      if w = 0 ∨ w > 60000 ∨ k = 0 ∨ k > 64 ∨ rest.length ≠ 13 * k then "bad-op" else
+      let outs := (chunks 13 rest k).map fun c =>
+        match c with
+        | d :: ts =>
+          match fromHex? d with
+          | some db => if db.length = 0 ∨ db.length > 256 then "bad-op" else handleGoneOne old new ts
+          | none => "bad-op"
+        | [] => "bad-op"
+      if outs.contains "bad-op" then "bad-op" else " | ".intercalate outs
+    | _, _, _ => "bad-op"
+  | _ => "bad-op"
+
 def handle : List String → String
+  | "c07.gone" :: rest => handleGone ("c07.gone" :: rest)
   | "c07.seq" :: _tag :: keyobj :: k :: rest =>
     match k.toNat? with
     | some k =>
